@@ -35,6 +35,13 @@ def nice(lo, hi):
     return fl(lo, hi).map(lambda x: float(f"{x:.4g}")).filter(lambda x: lo <= x <= hi)
 
 
+def amount(hi, integer_bias=True):
+    """An initial amount: exactly 0, a small integer, or a real >= 1e-3 (no denormal-range values: the integrator's
+    behaviour at 1e-308 is a floating-point range question, not a property of the model)."""
+    parts = [st.just(0.0), st.integers(0, int(hi)).map(float), fl(1e-3, hi).map(lambda x: float(f"{x:.4g}"))]
+    return st.one_of(*parts)
+
+
 class Builder:
     """Incrementally builds a spec inside a composite strategy."""
 
